@@ -156,6 +156,7 @@ type CallRec struct {
 	HRecvFinalSet bool
 	HSent      int
 	HSendErr   []error
+	HSendNeverFails bool // op 'e': SendMsg kept succeeding although the handler's context had ended
 	HReqMD     metadata.MD
 	HDeadline  time.Time
 	HHasDeadline bool
@@ -285,12 +286,21 @@ func (s *Sim) ServiceDesc() *grpc.ServiceDesc {
 	return &grpc.ServiceDesc{
 		ServiceName: SvcName,
 		HandlerType: (*any)(nil),
-		Methods: []grpc.MethodDesc{{MethodName: "Unary", Handler: s.unaryHandler}},
+		// (three unary methods: the one the scenarios call sits between two that nobody
+		// calls and that answer differently - a method table that confuses them shows)
+		Methods: []grpc.MethodDesc{{MethodName: "Aaa", Handler: auxUnary("aaa")}, {MethodName: "Unary", Handler: s.unaryHandler}, {MethodName: "Zzz", Handler: auxUnary("zzz")}},
 		Streams: []grpc.StreamDesc{
 			{StreamName: "SStream", ServerStreams: true, Handler: func(srv any, ss grpc.ServerStream) error { return s.streamHandler(KSStream, ss) }},
 			{StreamName: "CStream", ClientStreams: true, Handler: func(srv any, ss grpc.ServerStream) error { return s.streamHandler(KCStream, ss) }},
 			{StreamName: "Bidi", ServerStreams: true, ClientStreams: true, Handler: func(srv any, ss grpc.ServerStream) error { return s.streamHandler(KBidi, ss) }},
 		},
+	}
+}
+
+// auxUnary: a unary method of the service that no scenario calls.
+func auxUnary(name string) func(srv any, ctx context.Context, dec func(any) error, ic grpc.UnaryServerInterceptor) (any, error) {
+	return func(srv any, ctx context.Context, dec func(any) error, ic grpc.UnaryServerInterceptor) (any, error) {
+		return nil, status.Errorf(codes.Unimplemented, "verif.Sim/%s was not called by anybody", name)
 	}
 }
 
@@ -494,6 +504,36 @@ func (s *Sim) hop(r *CallRec, ctx context.Context, ss grpc.ServerStream, op Op) 
 			histMu.Unlock()
 			e.Log("h.send", "", id, errStr(err))
 			if err != nil {
+				return true
+			}
+		}
+	case 'e':
+		// the usual shape of a producer: send until Send fails (the end of the call is
+		// learnt from that error). Bounded: a Send that never fails on a call that is
+		// over would spin for ever
+		for i := 0; ; i++ {
+			e.Pt("h.send")
+			histMu.Lock()
+			k := r.HSent
+			histMu.Unlock()
+			err := ss.SendMsg(wrapperspb.Bytes(s.hmsg(r.Spec, k)))
+			histMu.Lock()
+			if err != nil {
+				r.HSendErr = append(r.HSendErr, err)
+			} else {
+				r.HSent++
+			}
+			histMu.Unlock()
+			if err != nil {
+				e.Log("h.send", "", id, errStr(err))
+				return true
+			}
+			if i >= 400 && ctx.Err() != nil {
+				histMu.Lock()
+				r.HSendNeverFails = true
+				histMu.Unlock()
+				e.Log("h.send.never-fails", "", id, "")
+				<-e.tornDown()
 				return true
 			}
 		}
